@@ -569,7 +569,10 @@ func runC02(c *Ctx) {
 				bk = []string{drv.SingleName, "other-bucket"}
 			}
 			keys := []string{"k", "d/x", "d/y", "d/e/z"}
-			ghosts := []string{"k/below", "d/x/below/deeper", "d", "d/e", "kk", "d/xx", "d/e/z/z"}
+			ghosts := []string{"k/below", "d/x/below/deeper", "d", "d/e", "kk", "d/xx", "d/e/z/z",
+				// names no file system entry can have: a segment of 300 bytes, and a 230-byte key whose
+				// flattened metadata name is too long; never written, so reads say NoSuchKey and deletes succeed
+				strings.Repeat("g", 300), "d/" + strings.Repeat("g", 300) + "/x", "d/" + strings.Repeat("h", 228)}
 			n := 30 + rng.Intn(31)
 			lastBody := map[string]string{}
 			var ops []s3op
